@@ -33,7 +33,7 @@ META = {
         'token splitting, interleaved rows, char[] sizing, CRLF handling beyond the continuation pattern - these are '
         'statements about the language the regex chain accepts.'),
     'floors': {'C02.NAME-EXACT': 1, 'C02.PAT-PAIR': 2, 'C02.ANGLE': 8, 'C02.RAW': 2, 'C02.DISPATCH': 1, 'C02.BINARY': 2,
-               'C02.CONT': 1, 'C02.INTCONV': 4, 'C02.COMMENT-FIRST': 1, 'C02.PER-INSTANCE': 2, 'C02.TRIM': 2, 'C02.CHARLEN': 2,
+               'C02.CONT': 1, 'C02.INTCONV': 4, 'C02.COMMENT-FIRST': 1, 'C02.PER-INSTANCE': 2, 'C02.TRIM': 2, 'C02.CHARLEN': 4,
                'C02.TOKEN-WS': 1},
 }
 
@@ -536,6 +536,15 @@ def check_charlen(ctx, yc):
         else:
             continue
         n += 1
+        # a declared table may have no rows: max() of an empty sequence raises unless it has a default
+        top = v.args[0] if (isinstance(v, ast.Call) and call_name(v) == 'len' and v.args) else outer
+        has_default = any(k.arg == 'default' for k in top.keywords) or (isinstance(top, ast.Call) and len(top.args) > 1)
+        guarded = any(isinstance(a, ast.If) and ('len(' in src(a.test) or '.size' in src(a.test)) for a in ancestors(r)) or \
+            any(isinstance(a, ast.Try) and any('ValueError' in src(h.type) for h in a.handlers if h.type is not None) and
+                any(r in list(ast.walk(b)) for b in a.body) for a in ancestors(r))
+        ctx.check('C02.CHARLEN', has_default or guarded, f, r, 'the width of a column of a table without rows is defined (`%s`)' % src(top)[:60],
+                  msg='char_length takes `%s` over the rows of the table with no default: a table that is declared but has no rows makes the whole '
+                      'read fail with ValueError (max() of an empty sequence)' % src(top)[:60], construct='char width of an empty column: ' + src(top)[:50])
         ctx.check('C02.CHARLEN', good, f, r, 'the width is the maximum of the value lengths: %s' % src(v)[:70],
                   msg='char_length returns `%s`: that is the length of the lexicographically largest value (or not a maximum of lengths), '
                       'not of the longest one; longer cells are truncated by the column dtype' % src(v)[:80],
